@@ -1,4 +1,5 @@
 import Noodles.Props.C15Text
+import Noodles.Props.C15Bin
 import Noodles.Hostile.Proof
 import Noodles.Hostile.BcfProof
 import Noodles.Hostile.CsiProof
